@@ -30,7 +30,11 @@ RULE = (
     "DO UPDATE with index_elements as strings or columns, index_where, set_ of literals / excluded.col / target.col arithmetic / per-row "
     "bindparam, where=), executed as single, executemany, multi-VALUES and executemany+RETURNING (sort_by_parameter_order on/off, page size "
     "1-5, permuting cursor); pg_on_sqlite: same programs through postgresql.insert + psycopg2 dialect, statements executed on raw SQLite; "
-    "mysql_clause: drawn ON DUPLICATE KEY UPDATE set-lists (kwargs/dict/ordered tuples) x 6 drivers x VALUES()/alias form. Non-trivial: the batch has both conflicting and non-conflicting sets, or a fired SET references excluded, or "
+    "mysql_clause: drawn ON DUPLICATE KEY UPDATE set-lists (kwargs/dict/ordered tuples) x 6 drivers x VALUES()/alias form; siblings: histories of 2-5 upserts on ONE SQLite engine (compiled cache on) plus a no-cache twin engine, "
+    "each statement derived from a base clause by toggling exactly one element {where value, where present/absent, where structure, set_ value, set_ keys, "
+    "index_elements/index_where, excluded vs literal, do_nothing vs do_update}, forward and reverse order, first statement optionally repeated last, every "
+    "statement judged against the model from the same initial rows, plus cache-key soundness over the history; cachekey: the same sibling families for the "
+    "sqlite / postgresql / mysql constructs at compile level (equal _generate_cache_key() => equal SQL and correct extracted parameters). Non-trivial: the batch has both conflicting and non-conflicting sets, or a fired SET references excluded, or "
     "a where/index_where decides; distinct = canonical JSON of the case"
 )
 ASSUMPTIONS = [
@@ -43,6 +47,8 @@ ASSUMPTIONS = [
     "are out of scope; MySQL tier checks the rendered clause structurally and by evaluation, never against a server",
     "MySQL tier: assignment keys are column-key strings (documented form); the MySQL 8 row-alias form is switched on by setting the dialect flag that "
     "initialize() derives from the server version; MySQL evaluates ON DUPLICATE KEY UPDATE assignments left to right",
+    "cache-key soundness uses _generate_cache_key(), compile(cache_key=...) and construct_params(extracted_parameters=...) - the path the engine's compiled "
+    "cache takes; for MySQL (no WHERE in ON DUPLICATE KEY UPDATE) the where-toggles are folded into one more assignment",
     "per-row bindparam() in DO UPDATE SET is in scope (issue #13130 handling in SQLCompiler._deliver_insertmanyvalues_batches)",
 ]
 
@@ -763,6 +769,288 @@ def _mysql_cases(draw):
     }
 
 
+# ------------------------------------------------------------------ histories of sibling upserts through one engine cache
+TOGGLES = ["where_value", "where_toggle", "where_struct", "set_value", "set_keys", "target", "exc_literal", "action"]
+
+
+def _deep(x):
+    import json
+
+    return json.loads(json.dumps(x))
+
+
+def _first_const_path(e):
+    """path (list of indexes) to the first ['const', int] inside expression e"""
+    if isinstance(e, list):
+        if e and e[0] == "const" and isinstance(e[1], int):
+            return []
+        for i, x in enumerate(e):
+            if isinstance(x, list):
+                p_ = _first_const_path(x)
+                if p_ is not None:
+                    return [i] + p_
+    return None
+
+
+def _toggle(clauses, kind, arg):
+    """derive a sibling clause list from `clauses` by changing exactly one element of the first clause"""
+    out = _deep(clauses)
+    cl = out[0]
+    if kind == "action":
+        if cl["action"] == "update":
+            out[0] = {"action": "nothing", "target": cl.get("target")}
+        else:
+            out[0] = {"action": "update", "target": cl.get("target") or "id", "set": [["v", ["exc", "v"]]], "where": None}
+        return out
+    if kind == "target":
+        order = ["id", "u", "ab", "pp"]
+        cur = cl.get("target") or "id"
+        cl["target"] = order[(order.index(cur) + 1 + arg % 3) % 4]
+        return out
+    if cl["action"] != "update":
+        return out
+    if kind == "where_value":
+        w = cl.get("where")
+        path = _first_const_path(w) if w else None
+        if path is None:
+            cl["where"] = ["lt", ["tgt", "v"], ["const", 3 + arg]]
+        else:
+            node = w
+            for i in path:
+                node = node[i]
+            node[1] = node[1] + 1 + arg
+    elif kind == "where_toggle":
+        cl["where"] = None if cl.get("where") else ["lt", ["tgt", "v"], ["const", 5]]
+    elif kind == "where_struct":
+        w = cl.get("where")
+        if not w or w[0] == "isnull":
+            cl["where"] = ["ge", ["exc", "v"], ["tgt", "v"]]
+        elif arg % 2 == 0:
+            w[0] = {"lt": "ge", "ge": "lt", "ne": "eq", "eq": "ne"}[w[0]]
+        else:
+            w[1] = ["exc", "v"] if w[1] != ["exc", "v"] else ["tgt", "v"]
+    elif kind == "set_value":
+        for item in cl["set"]:
+            path = _first_const_path(item[1])
+            if path is not None:
+                node = item[1]
+                for i in path:
+                    node = node[i]
+                node[1] = node[1] + 1 + arg
+                break
+        else:
+            cl["set"][0][1] = ["const", ("k%d" % arg) if cl["set"][0][0] == "note" else 40 + arg]
+    elif kind == "set_keys":
+        cols = [c for c, _ in cl["set"]]
+        if "note" in cols and len(cols) > 1:
+            cl["set"] = [it for it in cl["set"] if it[0] != "note"]
+        else:
+            cl["set"] = [it for it in cl["set"] if it[0] != "note"] + [["note", ["exc", "note"]]]
+    elif kind == "exc_literal":
+        e = cl["set"][0][1]
+        isnote = cl["set"][0][0] == "note"
+        cl["set"][0][1] = ["const", "lit" if isnote else 7] if _uses(e, "exc") else ["exc", "note" if isnote else "v"]
+    return out
+
+
+def _sib_base(case):
+    cl = dict(case["base"])
+    if cl["action"] == "update":
+        seen, st_ = set(), []
+        for col, e in cl["set"]:
+            if col not in seen and col in ("v", "note", "act") and not _uses(e, "bp"):
+                seen.add(col)
+                st_.append([col, e])
+        cl["set"] = st_ or [["v", ["exc", "v"]]]
+        w = cl.get("where")
+        if w and any(isinstance(x, list) and _uses(x, "bp") for x in w[1:]):
+            cl["where"] = ["lt", ["tgt", "v"], ["const", 5]]
+    if cl.get("target") is None:
+        cl["target"] = "id"
+    return [cl]
+
+
+def _exec_variant(sa, conn, t, insert_fn, clauses, mode, sort, plist, names_as, set_keys_as):
+    """runs one upsert in a transaction that is rolled back; returns ('ok', table, returning-rows|None) or ('integrity',)"""
+    stmt = _apply_clauses(sa, insert_fn(t), t, clauses, names_as, set_keys_as)
+    returning = mode in ("many_returning", "multi_values_returning", "single_returning")
+    if returning:
+        stmt = stmt.returning(*[t.c[c] for c in COLS], **({"sort_by_parameter_order": True} if (sort and mode == "many_returning") else {}))
+    try:
+        if mode in ("single", "single_returning"):
+            res = conn.execute(stmt, plist[0])
+        elif mode in ("many", "many_returning"):
+            res = conn.execute(stmt, plist)
+        else:
+            res = conn.execute(stmt.values(plist))
+        rr = [tuple(r) for r in res.all()] if returning else None
+        table = _snapshot(conn.exec_driver_sql("SELECT id,u,a,b,p,act,v,note FROM t").all())
+        return ("ok", table, rr)
+    except sa.exc.IntegrityError:
+        return ("integrity",)
+    finally:
+        conn.rollback()
+
+
+def check_siblings(case, ctx):
+    import sqlalchemy as sa
+    from sqlalchemy.dialects.sqlite import insert as sl_insert
+
+    base = _sib_base(case)
+    variants = [("base", base)]
+    for kind, arg in case["toggles"][:3]:
+        variants.append((kind, _toggle(base, kind, arg)))
+    if case.get("order") == "rev":
+        variants = variants[::-1]
+    if case.get("repeat_first"):
+        variants.append(variants[0])
+    mode = case["mode"]
+    sort = bool(case.get("sort"))
+    if mode in ("many", "many_returning") and any(cl.get("target") == "pp" for _, cls_ in variants for cl in cls_):
+        ctx.exclude("index_where (partial index target) with executemany on SQLite (known finding)")
+        mode = "multi_values_returning" if mode == "many_returning" else "multi_values"
+    existing = _seed_existing(case["existing"])
+    rows = _rows_from(case["rows"], True, "n", base, existing)
+    if mode.startswith("single"):
+        rows = rows[:1]
+    plist = [{k: r[k] for k in COLS} for r in rows]
+    ordered = mode.startswith("single") or (mode == "many_returning" and sort)
+
+    # model outcome per variant (each from the same initial rows)
+    expected = []
+    for kind, cls_ in variants:
+        m_table, m_ret, trace, m_err = _model_run(existing, rows, cls_, [{}] * len(rows))
+        if m_err is not None:
+            expected.append(("integrity", trace))
+        else:
+            expected.append(("ok", _snapshot([tuple(r[c] for c in COLS) for r in m_table]), [tuple(r[c] for c in COLS) for r in m_ret if r is not None], trace))
+    outcomes = {repr(e[:3]) for e in expected}
+    classes = {"mode=" + mode, "n=%d" % len(variants), "order=" + case.get("order", "fwd")} | {"toggle=" + k for k, _ in variants if k != "base"}
+    if len(outcomes) > 1:
+        classes.add("siblings-differ-in-outcome")
+    for (k, _), e in zip(variants, expected):
+        if k.startswith("where") and repr(e[:3]) != repr(expected[[v[0] for v in variants].index("base")][:3]):
+            classes.add("where-sibling-differs-from-base")
+    ctx.note(case, len(outcomes) > 1, classes=sorted(classes))
+
+    stats = {}
+    engines = {
+        "cached": du.sqlite_engine(case.get("paramstyle", "qmark"), "none", stats, insertmanyvalues_page_size=case.get("page", 3)),
+        "nocache": du.sqlite_engine(case.get("paramstyle", "qmark"), "none", stats, insertmanyvalues_page_size=case.get("page", 3), query_cache_size=0),
+    }
+    try:
+        m, t = _table(sa)
+        got = {}
+        for name, eng in engines.items():
+            m.create_all(eng)
+            res = []
+            with eng.connect() as conn:
+                for r in existing:
+                    conn.exec_driver_sql("INSERT INTO t (id,u,a,b,p,act,v,note) VALUES (?,?,?,?,?,?,?,?)", tuple(r[c] for c in COLS))
+                conn.commit()
+                for kind, cls_ in variants:
+                    res.append(_exec_variant(sa, conn, t, sl_insert, cls_, mode, sort, plist, case.get("names_as", "col"), case.get("set_keys_as", "str")))
+            got[name] = res
+        for i, ((kind, cls_), exp) in enumerate(zip(variants, expected)):
+            for name in ("cached", "nocache"):
+                g = got[name][i]
+                where = f"statement {i} ({kind}) of {[k for k, _ in variants]} on the {name} engine"
+                tag = "sibling-history" if name == "cached" and got["nocache"][i] != g else name
+                if exp[0] == "integrity":
+                    if g[0] != "integrity":
+                        raise Violation(f"C56/siblings/{tag}/no-integrity-error", f"{where}: model raises, statement succeeded; clauses {cls_}")
+                    continue
+                if g[0] == "integrity":
+                    raise Violation(f"C56/siblings/{tag}/unexpected-integrity-error", f"{where}: model accepts every row (trace {exp[3]}); clauses {cls_}")
+                if g[1] != exp[1]:
+                    raise Violation(f"C56/siblings/{tag}/table-state", f"{where}: table differs from the insert-or-update model (trace {exp[3]}); clauses {cls_}",
+                                    observed=g[1], expected=exp[1])
+                if g[2] is not None:
+                    if (g[2] != exp[2]) if ordered else (_snapshot(g[2]) != _snapshot(exp[2])):
+                        raise Violation(f"C56/siblings/{tag}/returning", f"{where}: RETURNING rows differ from the affected rows (trace {exp[3]})", observed=g[2], expected=exp[2])
+        # key soundness over the history
+        stmts = [_apply_clauses(sa, sl_insert(t).values(**plist[0]), t, cls_, case.get("names_as", "col"), case.get("set_keys_as", "str")) for _, cls_ in variants]
+        _key_soundness(sa, stmts, [k for k, _ in variants], engines["cached"].dialect, "sqlite")
+    finally:
+        for eng in engines.values():
+            eng.dispose()
+
+
+def _positional_values(compiled, params):
+    names = list(compiled.bind_names.values())
+    return [params[n] for n in names if n in params]
+
+
+def _key_soundness(sa, stmts, labels, dialect, family):
+    """equal cache keys must mean equal SQL and, with the second statement's extracted parameters, the second statement's bound values"""
+    keys = [s_._generate_cache_key() for s_ in stmts]
+    n_equal = 0
+    for i in range(len(stmts)):
+        for j in range(i + 1, len(stmts)):
+            ki, kj = keys[i], keys[j]
+            if ki is None or kj is None or ki.key != kj.key:
+                continue
+            n_equal += 1
+            ci = stmts[i].compile(dialect=dialect, cache_key=ki)
+            cj = stmts[j].compile(dialect=dialect)
+            if str(ci) != str(cj):
+                raise Violation(f"C56/cache-key/{family}/equal-key-different-sql", f"statements {labels[i]} and {labels[j]} have equal cache keys but compile differently",
+                                observed=str(ci)[-300:], expected=str(cj)[-300:])
+            via_cache = _positional_values(ci, ci.construct_params(extracted_parameters=kj.bindparams))
+            direct = _positional_values(cj, cj.construct_params())
+            if via_cache != direct:
+                raise Violation(f"C56/cache-key/{family}/stale-extracted-parameter", f"statements {labels[i]} and {labels[j]} share a cache key; running the second through the "
+                                f"first's compiled form binds {via_cache}, its own compilation binds {direct}", observed=via_cache, expected=direct)
+    return n_equal
+
+
+def check_cachekey(case, ctx):
+    """compile-level key soundness for the sqlite / postgresql / mysql upsert constructs"""
+    import sqlalchemy as sa
+
+    family = case["family"]
+    m, t = _table(sa)
+    base = _sib_base(case)
+    variants = [("base", base), ("base-again", _deep(base))]
+    for kind, arg in case["toggles"][:4]:
+        variants.append((kind, _toggle(base, kind, arg)))
+    row = _rows_from([case["row"]], True, "n")[0]
+    names_as, set_keys_as = case.get("names_as", "col"), case.get("set_keys_as", "str")
+    if family == "sqlite":
+        from sqlalchemy.dialects.sqlite import insert as ins
+        from sqlalchemy.dialects.sqlite import pysqlite
+
+        dialect = pysqlite.dialect()
+        stmts = [_apply_clauses(sa, ins(t).values(**row), t, c, names_as, set_keys_as) for _, c in variants]
+    elif family == "postgresql":
+        from sqlalchemy.dialects.postgresql import insert as ins
+        from sqlalchemy.dialects.postgresql import psycopg2
+
+        dialect = psycopg2.dialect()
+        stmts = [_apply_clauses(sa, ins(t).values(**row), t, c[:1], names_as, set_keys_as) for _, c in variants]
+    else:
+        from sqlalchemy.dialects.mysql import insert as ins
+        from sqlalchemy.dialects.mysql import mysqldb
+
+        dialect = mysqldb.dialect()
+        stmts = []
+        for _, c in variants:
+            cl = c[0]
+            st_ = ins(t).values(**row)
+            set_ = cl["set"] if cl["action"] == "update" else [["v", ["tgt", "v"]]]
+            pairs = [(col, _expr(sa, e, t, st_, st_.inserted)) for col, e in set_]
+            if cl.get("where"):  # no WHERE in MySQL: fold the toggle into one more assignment so that it still changes the statement
+                pairs.append(("act", _expr(sa, cl["where"][1], t, st_, st_.inserted)))
+            stmts.append(st_.on_duplicate_key_update(pairs if case.get("form") == "tuples" else dict(pairs)))
+    labels = [k for k, _ in variants]
+    n_equal = _key_soundness(sa, stmts, labels, dialect, family)
+    k0, k1 = stmts[0]._generate_cache_key(), stmts[1]._generate_cache_key()
+    classes = [family] + ["toggle=" + k for k in labels[2:]] + ["equal-key-pairs=%s" % ("1" if n_equal <= 1 else "2+")]
+    ctx.note(case, n_equal >= 2, classes=classes)
+    if k0 is None or k1 is None or k0.key != k1.key:
+        raise Violation(f"C56/cache-key/{family}/identical-statements-different-key", "the same upsert built twice does not produce the same cache key")
+
+
 # ------------------------------------------------------------------ strategies
 _intent = st.sampled_from(["c0"] * 14 + ["c1"] * 5 + ["none"] * 10 + ["other", "id+u"])
 _rowspec = st.tuples(_intent, st.integers(0, 11), st.integers(0, 9), st.sampled_from([0, 1, 1]), st.sampled_from([False, False, False, True])).map(list)
@@ -811,9 +1099,46 @@ def _live_cases(draw):
     }
 
 
+_where_const = st.sampled_from([None, ["lt", ["tgt", "v"], ["const", 5]], ["ne", ["tgt", "v"], ["const", 5]], ["ge", ["exc", "v"], ["const", 4]],
+                               ["lt", ["tgt", "v"], ["exc", "v"]], ["lt", ["tgt", "v"], ["const", 5]], ["ge", ["tgt", "v"], ["const", 3]]])
+_base_clause = st.one_of(
+    st.fixed_dictionaries({"action": st.just("update"), "target": st.sampled_from(["id", "id", "id", "u", "ab", "pp"]),
+                           "set": st.lists(_set_item, min_size=1, max_size=2), "where": _where_const}),
+    st.fixed_dictionaries({"action": st.just("update"), "target": st.just("id"), "set": st.just([["v", ["add", ["exc", "v"], ["const", 100]]]]), "where": _where_const}),
+    st.fixed_dictionaries({"action": st.just("nothing"), "target": st.sampled_from(["id", "u"])}),
+)
+_toggle_item = st.tuples(st.sampled_from(TOGGLES + ["where_value", "where_toggle", "where_struct"]), st.integers(0, 3)).map(list)
+
+
+@st.composite
+def _sibling_cases(draw):
+    return {
+        "base": draw(_base_clause), "toggles": draw(st.lists(_toggle_item, min_size=1, max_size=3)),
+        "order": draw(st.sampled_from(["fwd", "rev"])), "repeat_first": draw(st.booleans()),
+        "existing": draw(st.lists(_existing_spec, min_size=1, max_size=6)),
+        "rows": draw(st.lists(st.tuples(st.sampled_from(["c0", "c0", "c0", "none"]), st.integers(0, 11), st.integers(0, 9), st.sampled_from([0, 1, 1]),
+                                        st.sampled_from([False, False, True])).map(list), min_size=2, max_size=6)),
+        "mode": draw(st.sampled_from(["many_returning", "many", "multi_values_returning", "single", "single_returning", "many_returning"])),
+        "sort": draw(st.booleans()), "page": draw(st.integers(1, 4)),
+        "paramstyle": draw(st.sampled_from(["qmark", "named", "numeric_dollar"])),
+        "names_as": draw(st.sampled_from(["col", "str"])), "set_keys_as": draw(st.sampled_from(["col", "str"])),
+    }
+
+
+@st.composite
+def _cachekey_cases(draw):
+    return {
+        "family": draw(st.sampled_from(["sqlite", "postgresql", "mysql"])), "base": draw(_base_clause),
+        "toggles": draw(st.lists(_toggle_item, min_size=1, max_size=4)), "row": ["none", 0, draw(st.integers(0, 9)), 1, False],
+        "form": draw(st.sampled_from(["dict", "tuples"])), "names_as": draw(st.sampled_from(["col", "str"])), "set_keys_as": draw(st.sampled_from(["col", "str"])),
+    }
+
+
 def subs(tier):
     return [
         Generated("sqlite", check_live, strategy=_live_cases(), quick=2000, thorough=50000),
         Generated("pg_on_sqlite", check_pg, strategy=_live_cases(), quick=1000, thorough=20000),
         Generated("mysql_clause", check_mysql, strategy=_mysql_cases(), quick=800, thorough=15000),
+        Generated("siblings", check_siblings, strategy=_sibling_cases(), quick=900, thorough=20000),
+        Generated("cachekey", check_cachekey, strategy=_cachekey_cases(), quick=900, thorough=20000),
     ]
